@@ -125,6 +125,7 @@ pub mod limits {
 
     static INDEXER_MAX_COUNT: AtomicUsize = AtomicUsize::new(0);
     static PACKER_MAX_COUNT: AtomicUsize = AtomicUsize::new(0);
+    static MIN_INDEX_LEN: AtomicUsize = AtomicUsize::new(0);
 
     /// Save the index file being built as soon as it lists `n` blobs (0 = no override).
     pub fn set_indexer_max_count(n: usize) {
@@ -134,6 +135,19 @@ pub mod limits {
     /// Save a pack as soon as it holds `n` blobs (0 = no override).
     pub fn set_packer_max_count(n: usize) {
         PACKER_MAX_COUNT.store(n, Ordering::SeqCst);
+    }
+
+    /// Prune treats index files listing fewer than `n` blobs as too small and rebuilds them
+    /// (0 = no override of the constant).
+    pub fn set_min_index_len(n: usize) {
+        MIN_INDEX_LEN.store(n, Ordering::SeqCst);
+    }
+
+    pub(crate) fn min_index_len() -> Option<usize> {
+        match MIN_INDEX_LEN.load(Ordering::SeqCst) {
+            0 => None,
+            n => Some(n),
+        }
     }
 
     pub(crate) fn indexer_max_count() -> Option<usize> {
